@@ -4,6 +4,8 @@ id=$1; d=$2; tier=${3:-quick}
 cd /verif
 [ -z "$(git -C /repo status --short)" ] || { echo "/repo not clean"; exit 2; }
 git -C /repo apply $d/patch.diff || exit 2
+cp evidence/$id.json /tmp/seeds/evidence_$id.saved 2>/dev/null
 ./check $id --tier $tier > /tmp/seeds/run_$id.$(basename $d).log 2>&1; rc=$?
 git -C /repo checkout -q -- . ; git -C /repo clean -fdq -e '*.pyc' >/dev/null
+cp /tmp/seeds/evidence_$id.saved evidence/$id.json 2>/dev/null
 echo "$id $(basename $d): check rc=$rc :: $(grep -m2 'VIOLATION\|^  ' /tmp/seeds/run_$id.$(basename $d).log | tr '\n' ' ' | cut -c1-400)"
